@@ -178,6 +178,8 @@ def prepare(ctx, exe, chunk, counters, nq, maxlen, ties):
             counters['model_error'] += 1
             continue
         dv = sexp.parse(dl)
+        if len(dv) > 2 and dv[2] != '1':
+            counters['accepted_but_nonterminal_not_last_in_word'] += 1
         if dv[0] != '1' or dv[1] != '1':
             counters['outside_C01_domain'] += 1
             if c[0].startswith('witness'):
@@ -269,7 +271,7 @@ def single_text(exe, text, outs, ws, pre, wb):
     e = sexp.dump(sexp.parse(ml)[2])
     lines = model.run(['domain %s %s' % (e, mspec.env_sx(outs)),
                        mspec.meaning_request(e, outs, mspec.DEFAULT_WB if wb is None else wb, [(ws, pre)])])
-    if lines[0] != '(1 1)' or lines[1].startswith('(drivererror'):
+    if not lines[0].startswith('(1 1') or lines[1].startswith('(drivererror'):
         return None
     spec, flags = mspec.parse_meaning(lines[1])[0]
     if flags['ambiguous']:
@@ -391,7 +393,7 @@ def run(ctx, res):
     nq = 8 if quick else 24
     maxlen = 3 if quick else 5
     chunk_size = 32 if quick else 96
-    counters = dict(t1_check_disagreements=0, crashed=0, rejected_by_complgen=0, outside_C01_domain=0, model_error=0, ambiguous_queries=0,
+    counters = dict(t1_check_disagreements=0, crashed=0, rejected_by_complgen=0, outside_C01_domain=0, accepted_but_nonterminal_not_last_in_word=0, model_error=0, ambiguous_queries=0,
                     grammars_run=0, targeted_run=0, exhaustive_run=0, random_run=0, rc1_expected=0, nonempty_required=0,
                     fallback_grammars=0, subword_grammars=0, command_grammars=0, anyword_grammars=0,
                     empty_wordbreaks_queries=0, chunks=0)
